@@ -247,7 +247,50 @@ def run(ctx):
                       "the element count is min(_, caller length in elements) or the byte size is checked against the caller length",
                       "raw copy in %s is not bounded by the caller-supplied buffer length%s" % (b.id, (": " + "; ".join(w for w in why if "BYTES" in w)) if any("BYTES" in w for w in why) else ""),
                       site=b.where(bi))
-    ctx.floor("C17-R1", "copy_nonoverlapping sites", n_copy, 9 if ctx.config == "default" else 8)
+    # The number of raw-copy sites is not an invariant (two entry points may share one helper); what must not happen is
+    # that the rule goes blind. So: a low sanity floor on sites, and every extern "C" function with a caller-supplied
+    # output buffer (a `*mut` scalar parameter) must reach at least one analysed raw write (copy / fill / store through
+    # add / bounded helper) within ffi.rs / ffi_par.rs.
+    ctx.floor("C17-R1", "copy_nonoverlapping sites", n_copy, 5)
+    by_id = {b.id: b for b in bodies}
+    def has_raw_write(b):
+        for bi, t in b.calls():
+            d = t["f"].get("def", "")
+            if d.endswith(("ptr::copy_nonoverlapping", "ptr::write_bytes")) or d.endswith("ptr::mut_ptr::<impl *mut T>::add"):
+                return True
+        return False
+    n_out = 0
+    for b in bodies:
+        if not str(b.rec.get("abi", "")).startswith("C"):
+            continue
+        outs = [b.local_name(p) for p in range(1, b.argc + 1)
+                if b.local_ty(p).replace(" ", "") in ("*mutu32", "*mutu8", "*muti8", "*mutc_char", "*mutcore::ffi::c_char")]
+        if not outs:
+            continue
+        n_out += 1
+        seen, dq = set(), [b.id]
+        found = False
+        while dq and not found:
+            u = dq.pop()
+            if u in seen:
+                continue
+            seen.add(u)
+            ub = by_id.get(u)
+            if ub is None:
+                continue
+            if has_raw_write(ub):
+                found = True
+                break
+            dq.extend(P.closures_of(u))
+            for bi, t in ub.calls():
+                d = t["f"].get("def", "")
+                if d in by_id:
+                    dq.append(d)
+        ctx.check(found, "C17-R1", "out-buffer-covered:" + b.id.rsplit("::", 1)[1],
+                  "an analysed raw write site is reachable for the output buffer(s) %s" % outs,
+                  "extern \"C\" %s takes output buffer(s) %s but no raw write site the rules analyse is reachable from it inside "
+                  "ffi.rs/ffi_par.rs: the buffer is written by code the bounds rules do not see" % (b.id, outs), site=b.where())
+    ctx.floor("C17-R1", "extern \"C\" functions with a scalar output buffer", n_out, 10)
 
     # write_bytes (zero fill) and single-element stores through ptr.add
     n_add = 0
@@ -323,9 +366,51 @@ def run(ctx):
 
     # ------------------------------------------------------------------ R3 null checks dominate raw uses
     n_null = 0
+    is_extern = lambda x: str(x.rec.get("abi", "")).startswith("C")
+    RAW_KINDS = ("copy_nonoverlapping", "write_bytes", "from_raw_parts", "::add", "ptr::read", "ptr::write", "CStr::from_ptr")
+    _needs = {}
+
+    def helper_needs_nonnull(hid, k, depth=0):
+        """Rust-ABI helper `hid` uses its raw-pointer parameter k without its own dominating null check: the obligation
+        belongs to its call sites (a helper extracted from an extern fn keeps the caller's check)"""
+        key = (hid, k)
+        if key in _needs:
+            return _needs[key]
+        _needs[key] = False
+        hb = by_id.get(hid)
+        if hb is None or is_extern(hb) or hb.kind == "closure" or depth > 4 or k > hb.argc:
+            return False
+        if not hb.local_ty(k).startswith(("*mut", "*const")):
+            return False
+        g = L.guard_edges(hb, lambda e: e[0] == "call" and e[1].endswith("::is_null") and e[2]
+                          and strip(e[2][0])[0] in ("place", "ref", "local") and (strip(e[2][0])[1][0] if strip(e[2][0])[0] != "local" else strip(e[2][0])[1]) == k, False)
+        uses = []
+        for bi, t in hb.calls():
+            d = t["f"].get("def", "")
+            for ai, a in enumerate(t["args"]):
+                e = strip(hb.expr(a))
+                if e[0] in ("place", "ref") and e[1][0] == k and len(e[1]) == 1:
+                    if any(x in d for x in RAW_KINDS) or helper_needs_nonnull(d, ai + 1, depth + 1):
+                        uses.append(bi)
+        for bi, si, st in hb.statements():
+            if st["s"] == "assign":
+                for pl in (st["p"], st["r"].get("p")):
+                    if pl and len(pl) >= 2 and pl[1] == "*" and pl[0] == k:
+                        uses.append(bi)
+        still = L.dominated_by_cut(hb, uses, g) if g else uses
+        _needs[key] = bool(still)
+        return _needs[key]
+
     for b in bodies:
         if b.kind == "closure":
             continue
+        transferred = set()
+        if not is_extern(b):
+            # a Rust-ABI helper: raw uses of a pointer parameter it does not null-check itself are charged to its callers
+            for p in range(1, b.argc + 1):
+                if helper_needs_nonnull(b.id, p):
+                    transferred.add(p)
+                    ctx.info("C17-R3", "%s:%s — null obligation charged to the call sites" % (b.id, b.local_name(p)))
         # raw-pointer parameters
         for p in range(1, b.argc + 1):
             ty = b.local_ty(p)
@@ -333,6 +418,8 @@ def run(ctx):
                 continue
             if "c_void" in ty:
                 continue  # opaque user data, never dereferenced here
+            if p in transferred:
+                continue
             uses = []
             # uses in this body and in its closures (captured)
             scope = [b] + [P.bodies[c] for c in P.closures_of(b.id) if c in P.bodies]
@@ -354,8 +441,10 @@ def run(ctx):
                             continue
                         if d.endswith("::is_null"):
                             nullchk = True
-                        elif any(k in d for k in ("copy_nonoverlapping", "write_bytes", "from_raw_parts", "::add", "ptr::read", "ptr::write", "CStr::from_ptr")):
+                        elif any(k in d for k in RAW_KINDS):
                             raw_use_sites.append((sb, bi, d))
+                        elif d in by_id and helper_needs_nonnull(d, t["args"].index(a) + 1):
+                            raw_use_sites.append((sb, bi, d + " (helper that uses the pointer raw)"))
                         elif d.startswith(FFI) and d.rsplit("::", 1)[1] in ("slice_from_ptr", "slice_from_ptr_or_empty", "c_str_to_str", "save_error_string", "ffi_guard_ptr", "ffi_guard_constraint"):
                             pass  # helper performs the null check itself (verified below)
                 for bi, si, st in sb.statements():
@@ -501,10 +590,27 @@ def run(ctx):
         for c in allcl:
             if not under_guard(c):
                 scope += [(c, bi, t) for bi, t in c.calls()]
+        # helpers defined in ffi.rs / ffi_par.rs that are not classified are analysed as part of the caller (their calls
+        # join the scope): extracting a block of an extern fn into a local helper changes nothing
+        inl_seen = set()
+        k = 0
+        while k < len(scope):
+            sb, bi, t = scope[k]
+            k += 1
+            d = t["f"].get("def")
+            if d and d in by_id and d not in GUARDS and d not in WRAPPED and d not in TOTAL_OK and not is_extern(by_id[d]) and d not in inl_seen:
+                inl_seen.add(d)
+                hb = by_id[d]
+                scope += [(hb, hbi, ht) for hbi, ht in hb.calls()]
+                for c in P.closures_of(d):
+                    if c in P.bodies:
+                        scope += [(P.bodies[c], cbi, ctt) for cbi, ctt in P.bodies[c].calls()]
         for sb, bi, t in scope:
             d = t["f"].get("def")
             if d is None:
                 # indirect call (user callback)
+                continue
+            if d in inl_seen:
                 continue
             if d.startswith(("core::", "alloc::", "std::", "<core", "<alloc", "<std", "<*", "anyhow::", "<anyhow")) or d.startswith("<&"):
                 continue
